@@ -5,7 +5,7 @@ from . import checklib
 
 
 def registry():
-    from . import checks_codec
+    from . import checks_codec, checks_prim
     reg = {
         "C01": checks_codec.check_C01,
         "C02": checks_codec.check_C02,
@@ -13,6 +13,8 @@ def registry():
         "C05": checks_codec.check_C05,
         "C06": checks_codec.check_C06,
         "C10": checks_codec.check_C10,
+        "C11": checks_prim.check_C11,
+        "C12": checks_prim.check_C12,
     }
     return reg
 
